@@ -16,7 +16,6 @@ import (
 	"encoding/json"
 	"errors"
 	"fmt"
-	"os"
 	"sort"
 	"strings"
 	"sync"
@@ -1036,10 +1035,10 @@ func TestVerifC06CacheConcurrent(t *testing.T) {
 func TestVerifC06CleanerRetry(t *testing.T) {
 	st := verifkit.New("cleaner")
 	defer st.Flush()
-	if !verifkit.Thorough() {
-		t.Skip("thorough tier only (real time)")
-	}
 	env := kit.GetEnv(t)
+	// The retry is due 1 s after the failed invalidation (a second one 5 s later).  The budget
+	// is >= 10x that, with a healthy store throughout, so an overrun is a verdict, not a
+	// scheduling accident: the stale entry would be served until its TTL (1 h here) runs out.
 	budget := time.Duration(verifkit.EnvInt("c06_cleaner_budget_s", 40)) * time.Second
 	type scen struct {
 		name   string
@@ -1050,11 +1049,16 @@ func TestVerifC06CleanerRetry(t *testing.T) {
 	}
 	scens := []scen{
 		{"node/1-key/hook", []int{0}, 1, 1, false},
-		{"node/3-keys/hook", []int{1}, 3, 1, false},
-		{"node/1-key/outage", []int{2}, 1, 1, true},
-		{"cluster/3-keys/hook", []int{0, 1, 2}, 3, 1, false},
 		{"cluster/2-keys/outage", []int{0, 1}, 2, 1, true},
-		{"node/1-key/hook-twice", []int{0}, 1, 2, false},
+	}
+	rounds := 2
+	if verifkit.Thorough() {
+		scens = append(scens,
+			scen{"node/3-keys/hook", []int{1}, 3, 1, false},
+			scen{"node/1-key/outage", []int{2}, 1, 1, true},
+			scen{"cluster/3-keys/hook", []int{0, 1, 2}, 3, 1, false},
+			scen{"node/1-key/hook-twice", []int{0}, 1, 2, false})
+		rounds = 3
 	}
 	prefix := env.NewCase("clean")
 	type pending struct {
@@ -1062,68 +1066,74 @@ func TestVerifC06CleanerRetry(t *testing.T) {
 		keys  []string
 		nodes []int
 	}
-	var pend []pending
-	for si, s := range scens {
-		st.Eval()
-		conf := c06Conf{nodes: s.nodes, exp: time.Hour}
-		c := c06Build(env, conf, syncx.NewSingleFlight())
-		var keys []string
-		for i := 0; i < s.nkeys; i++ {
-			k := fmt.Sprintf("%ss%d:k%d", prefix, si, i)
-			keys = append(keys, k)
-			if err := c.Set(k, c06Row{ID: int64(i), Name: "stale"}); err != nil {
-				st.Note("inconclusive: Set failed: %v", err)
-				return
-			}
-		}
-		env.Pad(s.nodes, 15)
-		if s.outage {
-			env.Outage(true)
-		} else {
-			env.Hook.Arm(kit.KDel, keys[0], s.fails)
-		}
-		err := c.Del(keys...)
-		env.Outage(false)
-		stale := 0
-		for _, k := range keys {
-			if env.Lookup(s.nodes, k).Present {
-				stale++
-			}
-		}
-		st.Class(fmt.Sprintf("del-returned-error:%v", err != nil))
-		if stale == 0 {
-			st.Note("%s: no key survived the failed Del (nothing to retry)", s.name)
-			continue
-		}
-		pend = append(pend, pending{s, keys, s.nodes})
-	}
-	start := time.Now()
-	tried, removed := len(pend), 0
-	for len(pend) > 0 && time.Since(start) < budget {
-		time.Sleep(100 * time.Millisecond)
-		var rest []pending
-		for _, p := range pend {
-			left := 0
-			for _, k := range p.keys {
-				if env.Lookup(p.nodes, k).Present {
-					left++
+	tried, removed := 0, 0
+	// The same key sets are invalidated-with-failure again in every round: recovery must work
+	// every time, not only the first time a key set is seen by this process.
+	for round := 0; round < rounds; round++ {
+		var pend []pending
+		for si, s := range scens {
+			st.Eval()
+			conf := c06Conf{nodes: s.nodes, exp: time.Hour}
+			c := c06Build(env, conf, syncx.NewSingleFlight())
+			var keys []string
+			for i := 0; i < s.nkeys; i++ {
+				k := fmt.Sprintf("%ss%d:k%d", prefix, si, i)
+				keys = append(keys, k)
+				if err := c.Set(k, c06Row{ID: int64(i), Name: "stale"}); err != nil {
+					st.Note("inconclusive: Set failed: %v", err)
+					return
 				}
 			}
-			if left > 0 {
-				rest = append(rest, p)
+			env.Pad(s.nodes, 15)
+			if s.outage {
+				env.Outage(true)
+			} else {
+				env.Hook.Arm(kit.KDel, keys[0], s.fails)
+			}
+			err := c.Del(keys...)
+			env.Outage(false)
+			stale := 0
+			for _, k := range keys {
+				if env.Lookup(s.nodes, k).Present {
+					stale++
+				}
+			}
+			st.Class(fmt.Sprintf("del-returned-error:%v", err != nil))
+			if stale == 0 {
+				st.Note("%s: no key survived the failed Del (nothing to retry)", s.name)
 				continue
 			}
-			removed++
-			st.Class("cleaner:stale-keys-removed")
-			st.NonTrivial(fmt.Sprintf("%s: stale keys removed by the cleaner after a failed invalidation", p.s.name))
+			pend = append(pend, pending{s, keys, s.nodes})
 		}
-		pend = rest
-	}
-	env.Hook.Disarm()
-	for _, p := range pend {
-		st.Class("inconclusive:cleaner-budget-overrun")
-		st.Note("inconclusive: %s: stale keys still present %v after the failed invalidation (retry expected after ~1 s%s)",
-			p.s.name, budget, c06Flag(p.s.fails > 1, ", second retry after ~6 s"))
+		start := time.Now()
+		tried += len(pend)
+		for len(pend) > 0 && time.Since(start) < budget {
+			time.Sleep(50 * time.Millisecond)
+			var rest []pending
+			for _, p := range pend {
+				left := 0
+				for _, k := range p.keys {
+					if env.Lookup(p.nodes, k).Present {
+						left++
+					}
+				}
+				if left > 0 {
+					rest = append(rest, p)
+					continue
+				}
+				removed++
+				st.Class(fmt.Sprintf("cleaner:stale-keys-removed:round-%d", round))
+				st.NonTrivial(fmt.Sprintf("%s round %d: stale keys removed by the cleaner after a failed invalidation", p.s.name, round))
+			}
+			pend = rest
+		}
+		env.Hook.Disarm()
+		for _, p := range pend {
+			t.Fatalf("C06 coherence clause (a cached read returns what the database holds once the write went through Exec with that key): "+
+				"%s, round %d on the same key set: the invalidation failed while the store was faulty, the store has been healthy for %v since, "+
+				"and the stale entries %v are still cached (the retry is due after 1 s%s); they would be served until their TTL of 1 h ends",
+				p.s.name, round, budget, p.keys, c06Flag(p.s.fails > 1, ", a second one 5 s later"))
+		}
 	}
 	// whatever the cleaner did, it must not have left persistent keys
 	for _, k := range env.AllKeys([]int{0, 1, 2}) {
@@ -1131,13 +1141,7 @@ func TestVerifC06CleanerRetry(t *testing.T) {
 			t.Fatalf("TTL clause: key %s is persistent after the cleaner ran", k)
 		}
 	}
-	// Not one retry observed in >= 3 attempts: the clause was not exercised.  That is no verdict
-	// (wall-clock budget only) but no pass either: the unit ends with a non-FAIL exit status,
-	// which the driver reports as INFRA/inconclusive instead of OK.
-	if tried >= 3 && removed == 0 {
-		st.Note("0 of %d failed invalidations were repaired within %v: cleaner clause not exercised", tried, budget)
-		st.Flush()
-		fmt.Printf("INCONCLUSIVE: C06 cleaner: 0 of %d failed invalidations repaired within the wall-clock budget of %v\n", tried, budget)
-		os.Exit(3)
+	if tried == 0 {
+		st.Note("no failed invalidation left a stale key: cleaner clause not exercised")
 	}
 }
